@@ -55,7 +55,7 @@ def _documented(name: str, code: str, k: int):
 
 def rule_r1_r3(chk):
     chk.rule("C04-R1", "for each _PSEUDOFUNC_RESOLUTION entry, argument in {x, a+b[1]*c} and shift in {default,-1,-2,3}: "
-             "the emitted text, embedded as q*<text>^p, normalises to q*(documented formula)^p", floor=60)
+             "the emitted text, embedded as q*<text>^p, normalises to q*(documented formula)^p", floor=60, shape_independent=True)
     chk.rule("C04-R3", "alias keys (with/without underscore) map to identical (builder, default shift); the name pattern "
              "is the alternation of the table keys closed by \\b; default shift reaches the builder when none is given", floor=8)
     m, tab, pf = modellang.pseudofunction_table(chk.repo)
